@@ -224,7 +224,7 @@ class OwnDomain(Domain):
         if nm in ("builtins.list", "builtins.tuple", "builtins.dict", "builtins.set", "builtins.sorted", "builtins.frozenset"):
             r = it.default_external(nm, args, kwargs, node, st)
             if r is not None:
-                o = it.obj(st, r)
+                o = it.mobj(st, r)
                 if args and it.obj(st, args[0]) is None and has_owner(args[0].tag) and o is not None:
                     # members of the new container are the caller's members
                     o.elem = V(args[0].tag) if o.elem is None else it.join_v(o.elem, V(args[0].tag), st)
